@@ -282,7 +282,9 @@ EqRangeAns(p, lo, hi, chs, res) ==
           IF Occurrences(T, q) # {}
           THEN res[k] = <<RangeLo(T, q), RangeHi(T, q)>>
           ELSE res[k][1] >= res[k][2]
-EqRange(p, lo, hi, chs, res) == Holds(EqRangeAns(p, lo, hi, chs, res)) /\ Same
+(* a batch: items = records [p, lo, hi, res] sharing the byte list chs *)
+EqRangesAns(chs, items) == \A k \in 1..Len(items) : EqRangeAns(items[k].p, items[k].lo, items[k].hi, chs, items[k].res)
+EqRanges(chs, items) == Holds(EqRangesAns(chs, items)) /\ Same
 
 (* the dictionary was built (its array is not observable): it holds the text / construction refused *)
 DictBuilt(ok, n, dtext) == Holds(ok => (n = Len(T) /\ dtext = T)) /\ Same
